@@ -729,6 +729,23 @@ def split_assignments(stmts):
 def decount(stmts):
     """for v in count(k): if not T(v): return E   (nothing else in the loop, as the last statement)
        ->   v = k; while T(v): v += 1; return E        - the same search for the first v >= k at which T fails."""
+    # the bounded form: for v in range(k, len(P)): if not T(P[v]): return E  followed by  raise IndexError(..)  - the unbounded search
+    # faults with the same IndexError, on P[len(P)], when no such v exists
+    if len(stmts) >= 2 and isinstance(stmts[-1], ast.Raise) and isinstance(stmts[-2], ast.For):
+        exc = stmts[-1].exc.func if isinstance(stmts[-1].exc, ast.Call) else stmts[-1].exc
+        f = stmts[-2]
+        it = f.iter
+        if (isinstance(exc, ast.Name) and exc.id == "IndexError" and isinstance(f.target, ast.Name) and not f.orelse
+                and isinstance(it, ast.Call) and getattr(it.func, "id", None) == "range" and len(it.args) == 2 and not it.keywords
+                and isinstance(it.args[1], ast.Call) and getattr(it.args[1].func, "id", None) == "len" and len(it.args[1].args) == 1
+                and isinstance(it.args[1].args[0], ast.Name)
+                and len(f.body) == 1 and isinstance(f.body[0], ast.If) and not f.body[0].orelse
+                and len(f.body[0].body) == 1 and isinstance(f.body[0].body[0], ast.Return)
+                and any(isinstance(x, ast.Subscript) and isinstance(x.value, ast.Name) and x.value.id == it.args[1].args[0].id
+                        and isinstance(x.slice, ast.Name) and x.slice.id == f.target.id for x in ast.walk(f.body[0].test))):
+            g = ast.copy_location(ast.For(target=f.target, iter=ast.copy_location(ast.Call(
+                func=ast.Name(id="count", ctx=ast.Load()), args=[it.args[0]], keywords=[]), it), body=f.body, orelse=[]), f)
+            return decount(stmts[:-2] + [ast.fix_missing_locations(g)])
     if not stmts or not isinstance(stmts[-1], ast.For):
         return stmts
     f = stmts[-1]
